@@ -448,7 +448,10 @@ def build_aux(kind, cont, n, method, ts='yes'):
     if os.path.exists(exe) and not NO_CACHE:
         return exe
     os.makedirs(d, exist_ok=True)
-    flags = ['-O1', '-g'] + (['-fsanitize=thread'] if kind == 'race' else [])
+    # the race driver is built without optimisation: a compiler may fold a store pair such as libstdc++'s
+    # _M_inc_size/_M_dec_size in a same-list splice, which hides that write from ThreadSanitizer although the abstract
+    # machine performs it
+    flags = (['-O0', '-g', '-fsanitize=thread'] if kind == 'race' else ['-O1', '-g'])
     cmd = ['g++', '-std=c++17'] + flags + ['-DVF_REAL', '-DVF_RUNTIME_PROP', '-Dprivate=public', '-DCONT_API="api_%s.hpp"' % cont,
            '-DHCAP=%d' % n, '-DTS=%s' % ts, '-DMETHOD=%d' % method, '-I', os.path.join(ROOT, 'harness'), '-I', os.path.join(REPO, 'inc'),
            os.path.join(ROOT, 'replay', src), '-o', exe + '.tmp', '-ldl', '-lpthread']
